@@ -292,6 +292,56 @@ def make_run(reach=False):
     return fn
 
 
+def make_actor_restart(reach=False):
+    """start() called while a previous run is still being cancelled (its clean-up awaits): the run logic must never run twice concurrently."""
+    def fn(ex):
+        gap = [0.0, 0.5, 2.0][ex.choice("start_after_cancel_s", 3)]
+        use_stop = ex.flag("cancel_via_stop")
+        cleanup = [0.0, 1.0][ex.choice("cleanup_s", 2)]
+        log = []
+
+        class A(Actor):
+            async def _run(self):
+                log.append("enter")
+                try:
+                    await asyncio.sleep(10.0)   # (a restarted run simply ends by itself after 10 s)
+                except asyncio.CancelledError:
+                    if cleanup:
+                        await asyncio.sleep(cleanup)
+                    raise
+                finally:
+                    log.append("exit")
+
+        async def scenario():
+            a = A(name="a")
+            a.start()
+            await asyncio.sleep(1.0)
+            stopper = None
+            if use_stop:
+                stopper = asyncio.create_task(a.stop())
+                await asyncio.sleep(0)
+            else:
+                a.cancel()
+            await asyncio.sleep(gap)
+            a.start()               # must be a no-op while the first run is still finishing
+            await asyncio.sleep(0.1)
+            snapshot = list(log)
+            if stopper is not None:
+                await asyncio.wait_for(stopper, 50.0)
+            await asyncio.wait_for(a.stop(), 50.0)
+            return snapshot, a.is_running
+        snapshot, running = fx.run_loop(scenario())
+        if reach:
+            ex.check(False, "reach")
+            return
+        active = 0
+        for e in log:
+            active += 1 if e == "enter" else -1
+            ex.check(active <= 1, f"run logic entered while a previous invocation is still running: {log}")
+        ex.check(active == 0 and not running, f"a run is still active after stop(): {log}")
+    return fn
+
+
 def instances(tier):
     I = Instance
     out = [
@@ -300,6 +350,7 @@ def instances(tier):
         I("runloop-K2-await2", "make_runloop", (2, 2), "<= 2 runs per start, 2 await points, 2 starts", budget_s=200, validate_every=50),
         I("service-2", "make_service", (2, True), "2 tasks x 6 behaviours, 4 operations, 2 instants", budget_s=200, validate_every=20),
         I("run-2", "make_run", (), "run() with 2 actors", budget_s=100, validate_every=10),
+        I("actor-start-while-stopping", "make_actor_restart", (), "start() while the previous run is being cancelled / cleaning up", budget_s=100, validate_every=5),
     ]
     if tier != "quick":
         out += [I("runloop-K4-await2", "make_runloop", (4, 2), "<= 4 runs, 2 await points (budgeted)", budget_s=600, validate_every=500, exhaustive=False),
